@@ -614,7 +614,7 @@ add_trigger(vbi_decoder *vbi, vbi_trigger *a)
 	if (a->_delete) {
 		vbi_trigger **tp;
 
-		for (tp = &vbi->triggers; (t = *tp); tp = &t->next)
+		for (tp = &vbi->triggers; (t = *tp);)
 			if (strcmp((char *) a->link.url, (char *) t->link.url) == 0
 			    && fabs(a->fire - t->fire) < 0.1) {
 				*tp = t->next;
@@ -642,6 +642,8 @@ add_trigger(vbi_decoder *vbi, vbi_trigger *a)
 
 	if (!(t = malloc(sizeof(*t))))
 		return;
+
+	*t = *a;
 
 	t->next = vbi->triggers;
 	vbi->triggers = t;
